@@ -933,9 +933,21 @@ def emitter_lemmas(o, M, MO):
         detail[name] = {"rc": r["rc"], "panic": "%s:%s" % loc if loc else None}
         if crashed(r):
             crashes.append("%s: exit %s%s" % (name, r["rc"], (" (panicked at %s:%s)" % loc) if loc else ""))
+    # every program the other checks know to be accepted (their oracle corpora): acceptance must mean "does not crash"
+    import pool
+    npool = 0
+    for name, files in pool.programs().items():
+        if name.startswith("c01/"):
+            continue
+        r = run_cli(cli, files, workdir=os.path.join(rdir, "pool-" + name.replace("/", "-")), timeout=30)
+        npool += 1
+        if crashed(r):
+            loc = panic_location(r["out"])
+            crashes.append("%s: exit %s%s" % (name, r["rc"], (" (panicked at %s:%s)" % loc) if loc else ""))
     with open(os.path.join(rdir, "cmd"), "w") as f:
         f.write("#!/bin/sh\n# each sub-directory holds one program; re-run: oal-cli -m main.oal -t out.yaml\ncd /verif && for d in %s/*/; do ./check C01 --replay $d; done\n" % rdir)
     o.extra["emitter_programs"] = detail
+    o.extra["pool_programs_run"] = npool
     if bad:
         if crashes:
             o.violation("accepted program crashes the emitter; lemma(s): %s; real oal-cli: %s" % ("; ".join(bad[:3]), "; ".join(crashes[:3])), rdir)
